@@ -120,16 +120,21 @@ class Run:
         self.transitions += res["transitions"]
         self.traces += len(traces)
         n = 0
+        violated = set()      # traces in which a clause of this property has already failed
         for ev, fails, cls in res["results"]:
             n += 1
             self.class_counts.update(cls)
             self.results.append((ev, fails, cls))
-            bind = [f for f in fails if f.startswith("bind.")]
-            if bind:
-                raise MachineryError("ill-formed trace (stage %s): %s on %s" % (stage, bind, json.dumps(trim_event(ev))[:800]))
             mine = [f for f in fails if f.startswith({"stages": "S", "extras": "X"}.get(self.prop, self.prop) + ".")]
             if mine:
                 self.violations.append((ev, mine, traces[ev["tid"]]))
+                violated.add(ev["tid"])
+            bind = [f for f in fails if f.startswith("bind.")]
+            # an ill-formed trace is a failure of the machinery - unless the library has already been seen to break the
+            # property earlier in the same trace (a list it reordered, an object it changed): what the driver then records
+            # from the damaged objects is a consequence of that violation, which is what gets reported
+            if bind and ev["tid"] not in violated:
+                raise MachineryError("ill-formed trace (stage %s): %s on %s" % (stage, bind, json.dumps(trim_event(ev))[:800]))
         self.evaluations += n
         self.stage_info.append({"stage": stage, "events": n, "tlc_wall_s": round(res["wall_s"], 1), "shards": res["shards"]})
 
